@@ -38,6 +38,11 @@ type c05Spec struct {
 	TTL    int    `json:"ttl"`
 	NDev   int    `json:"ndev,omitempty"` // devices between the requesters and the replier
 	Tr     string `json:"tr,omitempty"`   // transport of each device hop, comma separated
+	// send-side options of the replier (sendopt* and wire kinds; see newRigSpec)
+	BE  int    `json:"be,omitempty"`  // OptionBestEffort: 0 off, 1 socket before contexts, 2 per context, 3 socket after contexts
+	SDL bool   `json:"sdl,omitempty"` // OptionSendDeadline of one hour
+	WQ  int    `json:"wq,omitempty"`  // OptionWriteQLen + 1 (0: default)
+	PTr string `json:"ptr,omitempty"` // wire: transport of each requester's connection, comma separated
 }
 
 func TestMain(m *testing.M) { hx.Main(m) }
@@ -100,9 +105,60 @@ func TestC05(t *testing.T) {
 		cases = append(cases, mon.CaseSpec{Name: "recvposted", Spec: c05Spec{Proto: cooked[i%2], Mode: "recvposted", NCtx: 1 + rnd.Intn(4), NPipes: 1 + rnd.Intn(4), NOps: 2 + rnd.Intn(4),
 			TTL: chainTTL(rnd, ndev), NDev: ndev, Tr: pickHops(rnd, ndev)}})
 	}
+	// the seq and conc scripts with the replier's send-side options set: best effort (a reply may be
+	// discarded, never altered), a send deadline, a write-queue length; a fifth behind 1-2 devices
+	nso := r.Pick(300, 4500)
+	for i := 0; i < nso; i++ {
+		mode, nops := "seq", 16+rnd.Intn(30)
+		if i%3 == 2 {
+			mode, nops = "conc", 16+rnd.Intn(40)
+		}
+		ndev := 0
+		if rnd.Intn(5) == 0 {
+			ndev = 1 + rnd.Intn(2)
+		}
+		sp := c05Spec{Proto: cooked[i%2], Mode: mode, NCtx: 1 + rnd.Intn(4), NPipes: 1 + rnd.Intn(4), NOps: nops, TTL: chainTTL(rnd, ndev), NDev: ndev, Tr: pickHops(rnd, ndev)}
+		sp.BE, sp.SDL, sp.WQ = pickSendOpts(rnd, i)
+		cases = append(cases, mon.CaseSpec{Name: "sendopt" + mode, Spec: sp})
+	}
+	// requesters that are raw REQ / SURVEYOR sockets of the library connected over every transport
+	// (directly or through devices), replies with empty / shorter-than-a-word / word-like bodies
+	nwire := r.Pick(180, 2700)
+	for i := 0; i < nwire; i++ {
+		ndev := 0
+		if rnd.Intn(3) == 0 {
+			ndev = 1 + rnd.Intn(2)
+		}
+		np := 1 + rnd.Intn(3)
+		var ptr []string
+		for k := 0; k < np; k++ {
+			// every transport in turn for the first requester, so that each is the replier's own
+			// transport (no devices) or the outermost hop equally often
+			tr := hx.Transports[(i/2+k)%len(hx.Transports)]
+			if k > 0 && rnd.Intn(2) == 0 {
+				tr = hx.Transports[rnd.Intn(len(hx.Transports))]
+			}
+			ptr = append(ptr, tr)
+		}
+		hops := ""
+		if ndev > 0 {
+			var hs []string
+			for k := 0; k < ndev; k++ {
+				hs = append(hs, hx.Transports[rnd.Intn(len(hx.Transports))])
+			}
+			hops = strings.Join(hs, ",")
+		}
+		sp := c05Spec{Proto: cooked[i%2], Mode: "wire", NCtx: 1 + rnd.Intn(3), NPipes: np, NOps: 3 + rnd.Intn(6), TTL: chainTTL(rnd, ndev), NDev: ndev, Tr: hops, PTr: strings.Join(ptr, ",")}
+		if rnd.Intn(3) == 0 {
+			sp.BE, sp.SDL, sp.WQ = pickSendOpts(rnd, i)
+		}
+		cases = append(cases, mon.CaseSpec{Name: "wire", Spec: sp})
+	}
 	r.Run(cases, func(c *mon.Case) {
 		sp := c.Spec.(c05Spec)
 		switch sp.Mode {
+		case "wire":
+			c05Wire(c, sp)
 		case "recvposted":
 			c05RecvPosted(c, sp)
 		case "recvfail":
@@ -144,6 +200,19 @@ func sendReply(cx interface {
 	return err
 }
 
+// pickSendOpts: two in three with best effort on (set in one of the three ways), the others with only a
+// send deadline and/or a write-queue length; queue lengths 0, 1, 2, 8 or the default.
+func pickSendOpts(rnd *rand.Rand, i int) (be int, sdl bool, wq int) {
+	if i%3 != 0 {
+		be = 1 + rnd.Intn(3)
+	}
+	sdl = be == 0 || rnd.Intn(3) == 0
+	if rnd.Intn(2) == 0 {
+		wq = []int{1, 2, 3, 9}[rnd.Intn(4)]
+	}
+	return
+}
+
 func pickTTL(rnd *rand.Rand, min int) int {
 	if rnd.Intn(4) == 0 {
 		return []int{9, 10, 12, 16, 33, 100, 255}[rnd.Intn(7)]
@@ -172,6 +241,13 @@ func pickHops(rnd *rand.Rand, ndev int) string {
 		hops = append(hops, tr)
 	}
 	return strings.Join(hops, ",")
+}
+
+func optSig(sp c05Spec) string {
+	if sp.BE == 0 && !sp.SDL && sp.WQ == 0 {
+		return ""
+	}
+	return fmt.Sprintf("be%d,sdl%v,wq%d", sp.BE, sp.SDL, sp.WQ)
 }
 
 func errName(err error) string {
@@ -348,6 +424,7 @@ func (s *seqRun) send(i int, dropAfter bool) bool {
 	a := r.newAnswer(i, q, c.Rand)
 	a.dropBefore = q != nil && q.pipe.dropDone
 	a.afterFailed = cx.afterFailed
+	a.mayDrop = r.ctxMayDrop(i)
 	if q != nil {
 		pipesHeld := map[int]bool{}
 		for _, o := range s.st {
@@ -450,11 +527,18 @@ func (s *seqRun) send(i int, dropAfter bool) bool {
 		s.drop(q.pipe, "after_send", false)
 		return true
 	}
+	if a.mayDrop {
+		// best effort: accepted does not mean transmitted; the flush round (sent reliably) settles
+		// whether it went out, and scan judges it if it did
+		c.Count("sends_under_best_effort", 1)
+		r.scan(q.pipe)
+		return true
+	}
 	return c.AwaitOrViolate(r.proto+"/reply-not-transmitted", fmt.Sprintf("reply serial %d of ctx %d to request %d appearing on connection %d", a.serial, i, q.serial, q.pipe.n), func() bool { return r.answerSeen(a) }, mon.AwaitOpts{})
 }
 
 func c05Seq(c *mon.Case, sp c05Spec) {
-	r := newRigVia(c, sp.Proto, sp.NCtx, sp.NPipes, sp.TTL, sp.NDev, sp.Tr)
+	r := newRigSpec(c, sp)
 	if c.Failed() || c.Undecided() {
 		return
 	}
@@ -543,7 +627,7 @@ func c05Seq(c *mon.Case, sp c05Spec) {
 		return
 	}
 	r.finalCheck()
-	if r.checked > 0 && (s.multi > 0 || s.deep > 0 || s.inflt > 0) {
+	if r.checked > 0 && (s.multi > 0 || s.deep > 0 || s.inflt > 0) && (sp.BE == 0 || r.beSeen > 0) {
 		c.Nontrivial()
 	}
 	c.Count("sends_with_requests_from_2+_connections_pending", s.multi)
@@ -551,7 +635,7 @@ func c05Seq(c *mon.Case, sp c05Spec) {
 		c.Count("replies_verified_behind_devices", r.checked)
 		c.Count(fmt.Sprintf("replies_verified_behind_%d_devices", sp.NDev), r.checked)
 	}
-	c.Sig("%s|seq|%d|%d|%d|%d%s|%s", sp.Proto, sp.NCtx, sp.NPipes, sp.TTL, sp.NDev, sp.Tr, strings.Join(s.ops, " "))
+	c.Sig("%s|seq|%d|%d|%d|%d%s|%s|%s", sp.Proto, sp.NCtx, sp.NPipes, sp.TTL, sp.NDev, sp.Tr, optSig(sp), strings.Join(s.ops, " "))
 }
 
 // flush round: one more request/reply on every open connection, after which no connection's
@@ -559,6 +643,7 @@ func c05Seq(c *mon.Case, sp c05Spec) {
 func (s *seqRun) flush() bool {
 	c, r := s.c, s.r
 	if !c.Failed() && !c.Undecided() {
+		r.reliable()
 		var fl []*reqSt
 		for _, p := range r.livePipes() {
 			fl = append(fl, r.inject(p, 0, true))
@@ -589,7 +674,7 @@ func (s *seqRun) flush() bool {
 // ---- concurrent: one goroutine per context answering whatever it receives ----------
 
 func c05Conc(c *mon.Case, sp c05Spec) {
-	r := newRigVia(c, sp.Proto, sp.NCtx, sp.NPipes, sp.TTL, sp.NDev, sp.Tr)
+	r := newRigSpec(c, sp)
 	if c.Failed() || c.Undecided() {
 		return
 	}
@@ -646,6 +731,7 @@ func c05Conc(c *mon.Case, sp c05Spec) {
 				r.mu.Lock()
 				// sound only in this direction: dropped before we even decided to send
 				a.dropBefore = dropped
+				a.mayDrop = i < len(r.mayDrop) && r.mayDrop[i]
 				r.mu.Unlock()
 				var junk []byte
 				if lr.Intn(3) == 0 {
@@ -733,7 +819,9 @@ func c05Conc(c *mon.Case, sp c05Spec) {
 		stopAll()
 		return
 	}
-	// flush round
+	// flush round (every context is parked in Recv, so every earlier Send has returned: the flush
+	// replies, and only they, are sent with best effort off)
+	r.reliable()
 	var fl []*reqSt
 	for _, p := range r.livePipes() {
 		fl = append(fl, r.inject(p, 0, true))
@@ -769,7 +857,7 @@ func c05Conc(c *mon.Case, sp c05Spec) {
 		}
 		shape += fmt.Sprint(order[i])
 	}
-	if r.checked > 1 && (used >= 2 || len(r.pipes) >= 2) {
+	if r.checked > 1 && (used >= 2 || len(r.pipes) >= 2) && (sp.BE == 0 || r.beSeen > 0) {
 		c.Nontrivial()
 	}
 	c.Count("contexts_that_answered", used)
@@ -777,7 +865,7 @@ func c05Conc(c *mon.Case, sp c05Spec) {
 		c.Count("replies_verified_behind_devices", r.checked)
 		c.Count(fmt.Sprintf("replies_verified_behind_%d_devices", sp.NDev), r.checked)
 	}
-	c.Sig("%s|conc|%d|%d|%d%s|%s", sp.Proto, sp.NCtx, sp.TTL, sp.NDev, sp.Tr, shape)
+	c.Sig("%s|conc|%d|%d|%d%s|%s|%s", sp.Proto, sp.NCtx, sp.TTL, sp.NDev, sp.Tr, optSig(sp), shape)
 	_ = vt.Addr
 }
 
